@@ -89,6 +89,8 @@ TDhPub == /\ IsEvent("dhpub") /\ Keep /\ Ev.tainted = 0
           /\ IF Ev.rc = 0 THEN Ev.out = D!Pub(Ev.priv) ELSE Ev.inj > 0
 TDhKey == /\ IsEvent("dhkey") /\ Keep /\ Ev.tainted = 0
           /\ IF Ev.rc = 0 THEN Ev.out = D!Key(Ev.pub, Ev.priv) ELSE Ev.inj > 0
+\* constant-time comparison: zero exactly when the two buffers are identical
+TVerify == IsEvent("verify") /\ Keep /\ (Ev.rc = 0) = (Ev.a = Ev.b)
 TDhSane == IsEvent("dhsane") /\ Keep /\ (Ev.rc = 0) = D!Sane(Ev.pub) /\ Ev.rc \in {0, -1}
 \* C11: the OS entropy answers obtained during a read, then the read itself re-run in the model
 TEntropy == /\ IsEvent("entropy") /\ UNCHANGED <<st, inst>>
@@ -117,6 +119,6 @@ TSig == /\ IsEvent("sig") /\ Keep /\ Ev.rc = 0
              [] OTHER -> B(Ev.query) = V!S3Query(B(Ev.keyid), B(Ev.secret), B(Ev.region), B(Ev.a), B(Ev.b), B(Ev.c), Ev.expiry, t)
 \* C20: a failed (or successful) key-file read never hands memory holding the secret back to the allocator
 TKeyfile == IsEvent("keyfile") /\ Keep /\ Ev.tainted = 0
-Next == TReset \/ THash \/ THashBig \/ THmac \/ TPbkdf2 \/ TCrc \/ TAes \/ TAesExpand \/ TFreshEnd \/ TCtr \/ TDhPub \/ TDhKey \/ TDhSane \/ TEntropy \/ TDrbgRead \/ TDrbgEnd \/ TSig \/ TKeyfile
+Next == TReset \/ THash \/ THashBig \/ THmac \/ TPbkdf2 \/ TCrc \/ TAes \/ TAesExpand \/ TFreshEnd \/ TCtr \/ TDhPub \/ TDhKey \/ TDhSane \/ TVerify \/ TEntropy \/ TDrbgRead \/ TDrbgEnd \/ TSig \/ TKeyfile
 Spec == Init /\ [][Next]_vars
 =============================================================================
